@@ -208,7 +208,7 @@ func decodeCSRFCookie(cookie *http.Cookie, opts *options.Cookie) (*csrf, error) 
 func (c *csrf) cookieName() string {
 	stateSubstring := ""
 	if c.cookieOpts.CSRFPerRequest {
-		stateSubstring = encryption.HashNonce(c.OAuthState)[0 : csrfStateLength-1]
+		stateSubstring = ExtractStateSubstring(encryption.HashNonce(c.OAuthState))
 	}
 	return csrfCookieName(c.cookieOpts, stateSubstring)
 }
